@@ -67,6 +67,10 @@ func init() {
 				}
 				seq = append(seq, Instance{Scenario: "pipe", Params: mustJSON(PipeParams{Mode: "script", Layout: l, Depth: d, Ops: []string{"deliver0", "deliver1", "ackold", "acknew", "commit"}, Faults: true}), Bound: 0, Shards: 4})
 			}
+			for _, be := range []string{"file", ""} {
+				seq = append(seq, Instance{Scenario: "pipe", Params: mustJSON(PipeParams{Mode: "script", Layout: "single", Depth: map[string]int{"file": 7, "": 6}[be], Ops: []string{"deliver0", "deliver1", "ackold", "commit", "restart"}, Backend: be}), Bound: 0, Shards: 4,
+					Note: "saves of a process that was restarted over the store of its predecessor: a save of the new session keeps (never forgets, never moves back) what earlier sessions stored for the vBuckets it did not touch (backend: " + map[string]string{"file": "file", "": "couchbase"}[be] + ")"})
+			}
 			if tier == "thorough" {
 				for i := range out {
 					out[i].Bound = 3
